@@ -200,7 +200,7 @@ func genCase(t *rapid.T) Case {
 	if gen.Chance(t, 1, 5, "manyNames") {
 		names = gen.NamePool(8)
 	}
-	return Case{F: gen.Formula(t, gen.FormulaOpts{MaxDepth: rapid.IntRange(1, 4).Draw(t, "depth"), Names: names, MaxGroup: 8, BigGroupsPos: true}, 0, 1)}
+	return Case{F: gen.Formula(t, gen.FormulaOpts{MaxDepth: rapid.IntRange(1, 4).Draw(t, "depth"), Names: names, MaxGroup: 8, BigGroupsPos: true, Groups: &[][]string{}}, 0, 1)}
 }
 
 func init() {
